@@ -240,6 +240,10 @@ func (m *maxInflightWrapper) Resize(max uint32, burst uint32) bool {
 	if m.reserve < GlobalMaxInflightBurstMinInflight {
 		m.reserve = GlobalMaxInflightBurstMinInflight
 	}
+	if m.reserve > int32(max) {
+		// the reserve is a floor inside the limit, never above it (a global limit of 0 admits nothing)
+		m.reserve = int32(max)
+	}
 
 	m.max = int32(max)
 
